@@ -13,7 +13,8 @@
 (*             "unobserved" and resolved by ClsOf to the only class the loop guard admits   *)
 (*   Report    fc / fig: inverse_pth_root_errors as class against the threshold 0.1 and as  *)
 (*             decimal rounded DOWN; c05: its class against 0.05; retries: total_retries    *)
-(*   Return    finite, asym (max|X - X^T| / max|X| in 1e-12 units, rounded up), padnz       *)
+(*   Return    finite, asym (max|X - X^T| / max|X| as decimal, rounded up; judged            *)
+(*             against the rounding slack of the ridge actually inside X), padnz            *)
 (*             (non-zero entries of X in padding rows/columns), xzero, figzero              *)
 (*   Gate      accepted (fig < 0.1 in float32), meas: for every ridge base and escalation    *)
 (*             exponent the residual max|X^p (A + dI) - I| MEASURED in float64 on the        *)
@@ -35,8 +36,11 @@ tvars == <<vars, tid, l, bad>>
 Ev  == Traces[tid].events
 Cfg == Traces[tid].cfg
 
-\* tolerances of the structural clauses
-SymTol(dt)  == IF dt = "f64" THEN 1000 ELSE 100000000      \* 1e-9 / 1e-4 of max|X|, in 1e-12
+\* "symmetric": max|X - X^T| / max|X| within the same rounding slack 100 n p u cond(A + dI) the
+\* numerical clause grants (u = 2^-53; 2^-24 >= 5.96e-8 under f32)
+U32Lo == <<596000000, -16>>
+SlackFor(c, d, lamUp) == IF c.dt = "f64" THEN Slack(c, d, lamUp)
+                         ELSE DMulDown(DMulDown(DFromInt(100 * c.n * c.p), U32Lo), CondLo(c, d, lamUp))
 \* lambda_hat <= lambda_max: the report is float32 (2^-23); under f32 the input itself is
 \* rounded to float32, which moves lambda_max by up to n * 2^-24 relative: allow 1e-5
 LamBound(c) == IF c.dt = "f64" THEN F32Up(LamMax(c))
@@ -53,7 +57,8 @@ RepEv == Ev[CHOOSE i \in 1..Len(Ev) : Ev[i].a = "Report"]
 \* the estimate as a number, rounded up; eigh hides it: upper end of the PI interval
 LamUp == IF EstEv.lk = "num" THEN EstEv.lam ELSE LamMax(case)
 
-LkOf(e) == IF e.lk = "hidden" THEN (IF ~case.rel THEN "one" ELSE IF matrows = {} THEN "nan" ELSE "pos")
+LkOf(e) == IF ~case.rel THEN "one"
+           ELSE IF e.lk = "hidden" THEN (IF matrows = {} THEN "nan" ELSE "pos")
            ELSE IF e.lk = "num" THEN "pos" ELSE e.lk
 BfOf(e) == IF e.lk = "num" THEN DLt(e.lam, Floor(case))
            ELSE IF e.lk = "hidden" /\ case.rel /\ matrows # {} THEN LamMaxBelowFloor(case)
@@ -63,7 +68,14 @@ BfOf(e) == IF e.lk = "num" THEN DLt(e.lam, Floor(case))
 \* else); an unobserved LAST attempt (LOBPCG variant: the tracked error is overwritten by the
 \* unconditioned residual) is resolved to "small", which constrains nothing downstream
 ClsOf(e) == IF e.cls # "unobserved" THEN e.cls
+            ELSE IF matrows = {} THEN "nan"         \* all-padding: overwritten by the override
             ELSE IF l < Len(Ev) /\ Ev[l + 1].a = "Attempt" THEN "big" ELSE "small"
+
+\* all-padding: the figure before the override is not observable; any admissible class will do
+FcOf(e) == IF ~AllPad(case) THEN e.fc
+           ELSE IF figsrc = "tracked_error" /\ last = "small" THEN "below"
+           ELSE IF figsrc = "tracked_error" /\ last = "big" THEN "atabove"
+           ELSE "nan"
 
 Verdict(e) ==
   IF PcOf(e.a) # pc THEN "event_out_of_order"
@@ -91,6 +103,7 @@ Verdict(e) ==
      ELSE "ok")
   ELSE IF e.a = "Report" THEN
     (IF e.retries # tries THEN "reported_retries_differ_from_attempts"
+     ELSE IF AllPad(case) THEN "ok"
      ELSE IF e.fc = "below" /\ ~IsDec(e.fig) THEN "malformed_number"
      ELSE IF figsrc = "tracked_error" /\ e.c05 # last THEN "reported_error_is_not_last_tracked_error"
      ELSE IF figsrc = "tracked_error" /\ last = "small" /\ e.fc # "below" THEN "figure_class_contradicts_retry_class"
@@ -102,7 +115,8 @@ Verdict(e) ==
      ELSE IF e.padnz # 0 THEN "padding_rows_not_zero"
      ELSE IF AllPad(case) /\ ~(e.xzero /\ e.figzero) THEN "all_padding_result_or_error_not_zero"
      ELSE IF ~AllPad(case) /\ e.xzero THEN "result_is_zero_matrix"
-     ELSE IF e.asym > SymTol(case.dt) THEN "root_not_symmetric"
+     ELSE IF ~AllPad(case) /\ ~DLe(e.asym, SlackFor(case, RidgeUsed, LamUp))
+          THEN "root_not_symmetric"
      ELSE "ok")
   ELSE IF e.a = "Gate" THEN
     (IF e.accepted # (figcls \in {"below", "zero"}) THEN "gate_disagrees_with_figure_class"
@@ -124,7 +138,7 @@ Act(e) == CASE e.a = "Mask" -> Mask
             [] e.a = "ExitLoop" -> ExitLoop
             [] e.a = "Redeflate" -> Redeflate
             [] e.a = "Decompose" -> Decompose
-            [] e.a = "Report" -> Report(e.fc)
+            [] e.a = "Report" -> Report(FcOf(e))
             [] e.a = "Return" -> Override
             [] e.a = "Gate" -> Gate
 
